@@ -20,6 +20,9 @@ pub enum Ctx {
     TzCoords(String, i32, i32),
     /// a small caller-made public-holiday calendar (`ContextHolidays::new`), determined by the number
     Custom(u32),
+    /// the calendar of `Custom(k)` plus the days of `custom_edit_dates(k)`, built from scratch by plain inserts
+    /// (the reference for a calendar that was edited after it had been evaluated)
+    CustomEdited(u32),
 }
 
 #[derive(Serialize, Deserialize, Clone, Debug, PartialEq, Eq, PartialOrd, Ord, Hash)]
@@ -57,6 +60,11 @@ pub enum Op {
     /// two iterators alive at once on one thread, advanced in turns (n intervals each): whatever an iterator keeps
     /// outside itself (thread-local budgets, scratch state "owned" by the live iterator) is then shared by two of them
     Zip { e1: String, t1: i64, e2: String, t2: i64, n: u32 },
+    /// a caller-made calendar is attached and evaluated, then a copy of it gets more days through the public
+    /// `year_for_mut(..).insert(..)` and is attached to the same expression: the copy must evaluate like a calendar
+    /// built from scratch with the same days, and the original like before (whatever a calendar remembers from
+    /// earlier queries must not survive an edit, nor travel with `clone()`)
+    EditedCalendar { e: String, k: u32, t: i64, n: u32 },
     /// create `iter_from(t)`, advance it k steps, send it to another thread
     Send { chan: u32, e: String, c: Ctx, t: i64, k: u32 },
     /// receive an iterator and take n more intervals
@@ -602,6 +610,12 @@ pub fn generate_for(rng: &mut Rng, p: &Pools, mode: &str, idx: u64) -> Workload 
                     w.threads[th].insert(pos, Op::Parse(bad));
                     w.threads[th].insert(pos + 1, if rng.chance(1, 2) { Op::Parse(good) } else { Op::Iter { e: good, c: Ctx::Default, t, n: 6 } });
                 }
+            }
+            if rng.chance(1, 4) {
+                let th = rng.usize_below(w.threads.len());
+                let pos = rng.usize_below(w.threads[th].len() + 1);
+                let e = rng.pick(&["PH", "PH off; Mo-Su 10:00-12:00", "Mo-Fr 09:00-17:00; PH off", "PH,Su 10:00-14:00"]).to_string();
+                w.threads[th].insert(pos, Op::EditedCalendar { e, k: rng.below(6) as u32, t: *rng.pick(&p.instants), n: rng.range(8, 60) as u32 });
             }
             // two live iterators advanced in turns on one thread; one in ten of these walks for more than a century
             if rng.chance(1, 3) && !p.dense_exprs.is_empty() {
